@@ -871,13 +871,21 @@ impl ImageHandler for SixelImageHandler {
         // make sure height is always dividable by 6
         let height = (img.height() / 6) * 6;
         // sixel color chanel has a range [0,100] colors, we need to reduce it before
-        // quantization, it will produce smaller or/and better palette for this color depth
+        // quantization, it will produce smaller or/and better palette for this color depth.
+        // Sixel has no transparency, colors are blended with the background first, so it
+        // is the colors that are going to be shown that are reduced and counted.
+        let bg = self.bg.unwrap_or_else(|| RGBA::new(0, 0, 0, 255));
         let dimg = Image::from(img.view(..height, ..).map(|_, color| {
             let [red, green, blue, alpha] = color.to_rgba();
+            let [red, green, blue] = if alpha < 255 {
+                bg.blend_over(*color).to_rgb()
+            } else {
+                [red, green, blue]
+            };
             let red = ((red as f32 / 2.55).round() * 2.55) as u8;
             let green = ((green as f32 / 2.55).round() * 2.55) as u8;
             let blue = ((blue as f32 / 2.55).round() * 2.55) as u8;
-            RGBA::new(red, green, blue, alpha)
+            RGBA::new(red, green, blue, 255)
         }));
         let (palette, qimg) = match dimg.quantize(256, true, self.bg) {
             None => return Ok(()),
